@@ -303,6 +303,7 @@ func main() {
 		writeIfChanged(filepath.Join(*out, p.lean+".lean"), sb.String())
 	}
 	checkFacts(*repo, parsed, fset)
+	emitLeaves(*repo, parsed, fset, filepath.Join(*out, "Leaf.lean"))
 	if len(problems) > 0 {
 		for _, p := range problems {
 			fmt.Println("TIE-BROKEN " + p)
